@@ -185,6 +185,15 @@ def _cases(ctx, deep=False):
                 cases.append({'cfg': {'needs_resending': nr}, 'seed': rng.randrange(1 << 30),
                               'line_yield': [['cflib/crazyflie/__init__.py', fn]],
                               'script': [['open'], ['wait_line', fn, text, k], ['close'], ['sleep', 0.5], ['reconnect']]})
+    # the user closes the link / the driver reports an error while the dispatcher stands at a line of the answer check
+    # (Crazyflie._check_for_answers on a radio-like link: a reply has just been matched against a pending pattern;
+    # close_link / _link_error_cb drop all patterns): every source line of the check is a preemption point
+    for text in ('longest_match = match', 'if len(longest_match) > 0', '_answer_patterns.pop(', 'timer.cancel()'):
+        for k in (0, 3, 6, 12, 20, 33):
+            cases.append({'cfg': {'needs_resending': True}, 'seed': rng.randrange(1 << 30),
+                          'line_yield': [['cflib/crazyflie/__init__.py', '_check_for_answers']],
+                          'script': [['open'], ['wait_line', '_check_for_answers', text, k], ['close'], ['sleep', 0.5],
+                                     ['reconnect']]})
     # a setup request answered twice, the second answer arriving k packets later (re-sent request, slow first answer):
     # log reset (5,1,[5]), log TOC info (5,0,[3]), first log item (5,0,[2]), memory count (4,0,[1]), param TOC info (2,0,[3])
     # (only requests the library itself re-sends on timeout; the platform/version requests are sent once, a duplicate
